@@ -174,11 +174,11 @@ Local Notation Bpos := (Bpow_pos B B_ge_2).
 (** [a] is the rounding, in mode [m] at some digit position k >= 0 that keeps p or p+1 significant
     digits of the exact value, of the integer S counted in units of B^e0 *)
 Definition rounded_sum (p : Z) (m : mode) (S e0 : Z) (a : approx) : Prop :=
-  let k := approx_exp a - e0 in
-  0 <= k /\
   match a with
-  | AExact r _ => r * B ^ k = S
-  | AInexact r _ f =>
+  | AExact r e => (0 <= e - e0 /\ r * B ^ (e - e0) = S) \/ (r = 0 /\ S = 0)
+  | AInexact r e f =>
+      let k := e - e0 in
+      0 <= k /\
       S mod B ^ k <> 0 /\ r = spec_round m S (B ^ k) /\
       (f = AddOne -> S < r * B ^ k) /\ (f = SubOne -> r * B ^ k < S) /\
       B ^ (p - 1 + k) <= Z.abs S < B ^ (p + 1 + k)
@@ -246,7 +246,7 @@ Lemma tail_far p m sig e ls ks S e0 k lowT :
 Proof.
   intros Hks Hls Hlsn Hk HlT HlTn ES Ee Hsr Hwin.
   unfold rrs_tail. destruct (Z.eqb_spec ls 0) as [|_]; [contradiction|].
-  cbv zeta. unfold rounded_sum. cbn [approx_exp]. rewrite Ee. split; [exact Hk|].
+  cbv zeta. unfold rounded_sum. cbv zeta. rewrite Ee. split; [exact Hk|].
   pose proof (Bpos k Hk) as HP.
   pose proof (round_fract_spec B B_ge_2 m sig ls ks Hks Hls) as RF. rewrite Hsr in RF.
   split; [|split; [|split; [|split]]].
@@ -263,8 +263,8 @@ Lemma tail_rounded p m sig e low k S e0 :
   rounded_sum p m S e0 (rrs_tail m sig e low k).
 Proof.
   intros Hk Hl ES Ee Hwin. destruct (Z.eq_dec low 0) as [Hz|Hnz].
-  - unfold rrs_tail. rewrite Hz, Z.eqb_refl. unfold rounded_sum. cbn [approx_exp]. rewrite Ee.
-    split; [exact Hk|]. rewrite ES, Hz. ring.
+  - unfold rrs_tail. rewrite Hz, Z.eqb_refl. unfold rounded_sum. rewrite Ee.
+    left. split; [exact Hk|]. rewrite ES, Hz. ring.
   - apply (tail_far p m sig e low k S e0 k low); try assumption; [|auto].
     rewrite ES. reflexivity.
 Qed.
@@ -565,5 +565,369 @@ Proof.
     pose proof (Z.pow_lt_mono_r B (rdu + 1) ediff ltac:(lia) ltac:(lia) ltac:(lia)). lia.
   - fold rp. fold ld. intros Hlt.
     pose proof (Z.pow_lt_mono_r B (rdu + 1) (ediff + ld - rp) ltac:(lia) ltac:(lia) ltac:(lia)). lia.
+Qed.
+
+(* ------------------------------------------------------------------------------------------- *)
+(** * 6. repr_add_large_small / repr_add_small_large are [add_core] *)
+
+Lemma dlen_opp v : dlen B (- v) = dlen B v.
+Proof. unfold dlen. rewrite Z.abs_opp. reflexivity. Qed.
+
+Lemma dlen_sgnz sg v : dlen B (sgnz sg * v) = dlen B v.
+Proof.
+  destruct sg; cbn [sgnz]; [rewrite Z.mul_1_l; reflexivity|].
+  replace (-1 * v) with (- v) by ring. apply dlen_opp.
+Qed.
+
+Lemma sgn_sgnz sg v : Z.sgn (sgnz sg * v) = sgnz sg * Z.sgn v.
+Proof.
+  destruct sg; cbn [sgnz]; [rewrite !Z.mul_1_l; reflexivity|].
+  replace (-1 * v) with (- v) by ring. rewrite Z.sgn_opp. ring.
+Qed.
+
+Lemma split_sgnz sg v k :
+  split_digits B (sgnz sg * v) k = let '(hi, lo) := split_digits B v k in (sgnz sg * hi, sgnz sg * lo).
+Proof.
+  unfold split_digits. destruct sg; cbn [sgnz]; [rewrite !Z.mul_1_l; reflexivity|].
+  replace (-1 * v) with (- v) by ring.
+  destruct (Z.eq_dec (B ^ k) 0) as [Hz|Hnz].
+  - rewrite Hz, !Z.quot_0_r_ext, !Z.rem_0_r_ext by reflexivity. apply f_equal2; ring.
+  - rewrite Z.quot_opp_l, Z.rem_opp_l by exact Hnz. apply f_equal2; ring.
+Qed.
+
+Lemma is_sub_spec s1 s2 sg : s1 <> 0 -> s2 <> 0 ->
+  let is_sub := negb (sign_eqb (sign_of s1) (sign_mul sg (sign_of s2))) in
+  (is_sub = false -> 0 < s1 * (sgnz sg * s2)) /\ (is_sub = true -> s1 * (sgnz sg * s2) < 0).
+Proof.
+  intros H1 H2. unfold sign_of.
+  destruct (Z.ltb_spec s1 0), (Z.ltb_spec s2 0), sg; cbn [negb sign_eqb sign_mul sgnz]; split; intros Hx; try discriminate Hx; nia.
+Qed.
+
+Variable digits_ub : Z -> Z.
+
+Lemma large_small_core p m s1 e1 s2 e2 sg :
+  repr_add_large_small B digits_ub p m s1 e1 s2 e2 sg =
+  add_core p m s1 (sgnz sg * s2) e1 (e1 - e2)
+    (negb (sign_eqb (sign_of s1) (sign_mul sg (sign_of s2)))) (digits_ub s2).
+Proof.
+  unfold repr_add_large_small, add_core. cbv zeta.
+  repeat match goal with |- (if ?c then _ else _) = (if ?c then _ else _) => destruct c end.
+  - rewrite sgn_sgnz. reflexivity.
+  - rewrite split_sgnz. destruct (split_digits B s2 (e1 - e2)). reflexivity.
+  - rewrite split_sgnz. destruct (split_digits B s2 _). reflexivity.
+  - unfold shl_digits. replace (e1 - (e1 - e2)) with e2 by lia. reflexivity.
+Qed.
+
+Lemma small_large_core p m s1 e1 s2 e2 sg :
+  repr_add_small_large B digits_ub p m s1 e1 s2 e2 sg =
+  add_core p m (sgnz sg * s2) s1 e2 (e2 - e1)
+    (negb (sign_eqb (sign_of s1) (sign_mul sg (sign_of s2)))) (digits_ub s1).
+Proof.
+  unfold repr_add_small_large, add_core. cbv zeta. rewrite !dlen_sgnz.
+  repeat match goal with |- (if ?c then _ else _) = (if ?c then _ else _) => destruct c end.
+  - reflexivity.
+  - destruct (split_digits B s1 (e2 - e1)). rewrite Z.add_comm. reflexivity.
+  - destruct (split_digits B s1 _). unfold shl_digits. rewrite Z.mul_assoc. reflexivity.
+  - unfold shl_digits. replace (e2 - (e2 - e1)) with e1 by lia. rewrite Z.mul_assoc. reflexivity.
+Qed.
+
+Hypothesis digits_ub_ok : forall s, dlen B s <= digits_ub s.
+
+Theorem repr_add_large_small_correct p m s1 e1 s2 e2 sg :
+  1 <= p -> s1 <> 0 -> s2 <> 0 -> e2 < e1 -> dlen B s1 <= p -> dlen B s2 <= p ->
+  rounded_sum p m (s1 * B ^ (e1 - e2) + sgnz sg * s2) e2
+    (repr_add_large_small B digits_ub p m s1 e1 s2 e2 sg).
+Proof.
+  intros Hp H1 H2 He Hd1 Hd2. rewrite large_small_core.
+  destruct (is_sub_spec s1 s2 sg H1 H2) as [Ha Hb].
+  replace e2 with (e1 - (e1 - e2)) at 2 by lia.
+  apply add_core_correct; try assumption; try lia.
+  - rewrite dlen_sgnz. exact Hd2.
+  - rewrite dlen_sgnz. apply digits_ub_ok.
+Qed.
+
+Theorem repr_add_small_large_correct p m s1 e1 s2 e2 sg :
+  1 <= p -> s1 <> 0 -> s2 <> 0 -> e1 < e2 -> dlen B s1 <= p -> dlen B s2 <= p ->
+  rounded_sum p m (sgnz sg * s2 * B ^ (e2 - e1) + s1) e1
+    (repr_add_small_large B digits_ub p m s1 e1 s2 e2 sg).
+Proof.
+  intros Hp H1 H2 He Hd1 Hd2. rewrite small_large_core.
+  destruct (is_sub_spec s1 s2 sg H1 H2) as [Ha Hb].
+  replace e1 with (e2 - (e2 - e1)) at 2 by lia.
+  apply add_core_correct; try assumption; try lia.
+  - rewrite dlen_sgnz. exact Hd2.
+  - apply digits_ub_ok.
+Qed.
+
+(* ------------------------------------------------------------------------------------------- *)
+(** * 7. equal exponents, Context::add / Context::sub, the FBig operator bodies *)
+
+Lemma rem_mod_nonzero a b : 0 < b -> Z.rem a b <> 0 -> a mod b <> 0.
+Proof.
+  intros Hb Hr Hm. apply Hr. apply Z.rem_divide; [lia|]. apply Z.mod_divide; [lia | exact Hm].
+Qed.
+
+(** repr_round of a normalised significand (or one that fits) *)
+Lemma repr_round_rounded p m s e : 1 <= p -> (s mod B <> 0 \/ dlen B s <= p) ->
+  rounded_sum p m s e (repr_round B p m s e).
+Proof.
+  intros Hp Hn. destruct (Z.le_gt_cases (dlen B s) p) as [Hfit|Hlong].
+  - rewrite (repr_round_exact B p m s e Hfit). cbn [rounded_sum]. left. rewrite Z.sub_diag, Z.pow_0_r. lia.
+  - destruct Hn as [Hn|Hn]; [|lia].
+    destruct (repr_round_spec B B_ge_2 p m s e Hp Hlong) as (a & E & Ea). rewrite E.
+    set (k := dlen B s - p) in *. assert (Hk : 1 <= k) by (unfold k; lia).
+    pose proof (Bpos k ltac:(lia)) as HP.
+    assert (Hs : s <> 0) by (intros ->; rewrite dlen_zero in Hlong; lia).
+    destruct (dlen_spec B B_ge_2 s Hs) as [[L U] _].
+    pose proof (normalized_low_nonzero B B_ge_2 s k Hn Hk) as Hrem.
+    pose proof (Z.quot_rem' s (B ^ k)) as Eqr.
+    pose proof (Z.rem_bound_abs s (B ^ k) ltac:(lia)) as Hb. rewrite (Z.abs_eq (B ^ k)) in Hb by lia.
+    pose proof (round_fract_spec B B_ge_2 m (Z.quot s (B ^ k)) (Z.rem s (B ^ k)) k ltac:(lia) Hb) as RF.
+    rewrite <- Ea in RF. replace (Z.quot s (B ^ k) * B ^ k + Z.rem s (B ^ k)) with s in RF by lia.
+    cbn [rounded_sum]. cbv zeta. replace (e + k - e) with k by lia.
+    split; [lia|]. split; [apply rem_mod_nonzero; assumption|]. split; [reflexivity|].
+    split; [|split].
+    + intros Hf. rewrite <- RF, Hf. cbn [adj]. nia.
+    + intros Hf. rewrite <- RF, Hf. cbn [adj]. nia.
+    + replace (dlen B s - 1) with (p - 1 + k) in L by (unfold k; lia).
+      replace (dlen B s) with (p + k) in U by (unfold k; lia).
+      split; [exact L|]. eapply Z.lt_le_trans; [exact U|]. apply pow_le_mono; [exact B_ge_2 | lia].
+Qed.
+
+(** a result for (s', e + j) is a result for (s' * B^j, e) *)
+Lemma rounded_sum_scale p m s' e' s e j a : 1 <= p ->
+  0 <= j -> s = s' * B ^ j -> e' = e + j -> rounded_sum p m s' e' a -> rounded_sum p m s e a.
+Proof.
+  intros Hp Hj Es Ee H. pose proof (Bpos j Hj) as HPj. destruct a as [r ea|r ea f]; cbn [rounded_sum] in *.
+  - destruct H as [[Hk Hv]|[Hr Hz]]; [left | right].
+    + split; [lia|]. replace (ea - e) with ((ea - e') + j) by lia.
+      rewrite pow_split by (try exact B_ge_2; lia). rewrite Es, <- Hv. ring.
+    + split; [exact Hr|]. rewrite Es, Hz. ring.
+  - cbv zeta in *. destruct H as (Hk & Hm & Hr & Hf1 & Hf2 & HwL & HwU).
+    set (k' := ea - e') in *. replace (ea - e) with (k' + j) by (unfold k'; lia).
+    pose proof (Bpos k' Hk) as HPk. rewrite !pow_split by (try exact B_ge_2; lia).
+    split; [lia|]. split; [|split; [|split; [|split]]].
+    + rewrite Es. rewrite Z.mul_mod_distr_r by lia. nia.
+    + rewrite Es. rewrite spec_round_scale by lia. exact Hr.
+    + intros Hf. specialize (Hf1 Hf). rewrite Es. nia.
+    + intros Hf. specialize (Hf2 Hf). rewrite Es. nia.
+    + replace (p - 1 + (k' + j)) with ((p - 1 + k') + j) by lia.
+      replace (p + 1 + (k' + j)) with ((p + 1 + k') + j) by lia.
+      rewrite !pow_split in HwL, HwU by (try exact B_ge_2; lia).
+      rewrite Es, Z.abs_mul, (Z.abs_eq (B ^ j)) by lia.
+      rewrite !Z.mul_assoc. split.
+      * apply Z.mul_le_mono_nonneg_r; lia.
+      * rewrite (pow_split B p 1) in HwU by lia. apply Z.mul_lt_mono_pos_r; lia.
+Qed.
+
+Lemma equal_exp_rounded p m S e : 1 <= p ->
+  rounded_sum p m S e (let '(s, e') := normalize B S e in repr_round B p m s e').
+Proof.
+  intros Hp. pose proof (normalize_spec B B_ge_2 S e) as N.
+  destruct (normalize B S e) as [s' e']. destruct N as [N0 N1].
+  destruct (Z.eq_dec S 0) as [Hz|Hnz].
+  - destruct (N0 Hz) as [-> ->]. rewrite repr_round_exact by (rewrite dlen_zero; lia).
+    cbn [rounded_sum]. right. split; [reflexivity | exact Hz].
+  - destruct (N1 Hnz) as (Hs' & Hmod & j & Hj & Ee & Es).
+    apply (rounded_sum_scale p m s' e' S e j); try assumption.
+    apply repr_round_rounded; [exact Hp | left; exact Hmod].
+Qed.
+
+(** the exact sum of (s1, e1) and sg * (s2, e2) as an integer in units of B^(min e1 e2) *)
+Definition exact_sum (s1 e1 s2 e2 : Z) (sg : sign) : Z :=
+  let e0 := Z.min e1 e2 in s1 * B ^ (e1 - e0) + sgnz sg * s2 * B ^ (e2 - e0).
+
+Theorem add_dispatch_correct p m s1 e1 s2 e2 sg :
+  1 <= p -> s1 <> 0 -> s2 <> 0 -> dlen B s1 <= p -> dlen B s2 <= p ->
+  rounded_sum p m (exact_sum s1 e1 s2 e2 sg) (Z.min e1 e2) (add_dispatch B digits_ub p m s1 e1 s2 e2 sg).
+Proof.
+  intros Hp H1 H2 Hd1 Hd2. unfold add_dispatch, exact_sum. cbv zeta.
+  destruct (Z.compare_spec e1 e2) as [Heq|Hlt|Hgt].
+  - subst e2. rewrite Z.min_id, Z.sub_diag, Z.pow_0_r, !Z.mul_1_r.
+    apply equal_exp_rounded. exact Hp.
+  - replace (Z.min e1 e2) with e1 by lia. rewrite Z.sub_diag, Z.pow_0_r, Z.mul_1_r.
+    rewrite Z.add_comm. apply repr_add_small_large_correct; assumption.
+  - replace (Z.min e1 e2) with e2 by lia. rewrite Z.sub_diag, Z.pow_0_r, Z.mul_1_r.
+    apply repr_add_large_small_correct; assumption.
+Qed.
+
+(** Context::add and Context::sub for operands that fit the precision *)
+Theorem ctx_add_correct p m s1 e1 s2 e2 :
+  1 <= p -> dlen B s1 <= p -> dlen B s2 <= p ->
+  rounded_sum p m (exact_sum s1 e1 s2 e2 Positive) (Z.min e1 e2) (ctx_add B digits_ub p m s1 e1 s2 e2).
+Proof.
+  intros Hp Hd1 Hd2. unfold ctx_add.
+  destruct (Z.eqb_spec s1 0) as [Hz1|Hn1]; [|destruct (Z.eqb_spec s2 0) as [Hz2|Hn2]].
+  - rewrite (repr_round_exact B p m s2 e2 Hd2). unfold exact_sum. cbn [sgnz rounded_sum]. subst s1.
+    left. split; [lia|]. ring.
+  - rewrite (repr_round_exact B p m s1 e1 Hd1). unfold exact_sum. cbn [sgnz rounded_sum]. subst s2.
+    left. split; [lia|]. ring.
+  - apply add_dispatch_correct; assumption.
+Qed.
+
+Theorem ctx_sub_correct p m s1 e1 s2 e2 :
+  1 <= p -> dlen B s1 <= p -> dlen B s2 <= p ->
+  rounded_sum p m (exact_sum s1 e1 s2 e2 Negative) (Z.min e1 e2) (ctx_sub B digits_ub p m s1 e1 s2 e2).
+Proof.
+  intros Hp Hd1 Hd2. unfold ctx_sub.
+  destruct (Z.eqb_spec s1 0) as [Hz1|Hn1]; [|destruct (Z.eqb_spec s2 0) as [Hz2|Hn2]].
+  - rewrite (repr_round_exact B p m s2 e2 Hd2). unfold exact_sum. cbn [approx_neg sgnz rounded_sum]. subst s1.
+    left. split; [lia|]. ring.
+  - rewrite (repr_round_exact B p m s1 e1 Hd1). unfold exact_sum. cbn [sgnz rounded_sum]. subst s2.
+    left. split; [lia|]. ring.
+  - apply add_dispatch_correct; assumption.
+Qed.
+
+(** the four hand-written bodies of FBig + FBig / FBig - FBig (owned/borrowed forms) at the
+    precision p = max(p1, p2); operands of an FBig fit their own precision, hence p *)
+Lemma exact_sum_sign s1 e1 s2 e2 sg :
+  exact_sum s1 e1 (sgnz sg * s2) e2 Positive = exact_sum s1 e1 s2 e2 sg.
+Proof. unfold exact_sum. cbn [sgnz]. ring. Qed.
+
+Definition form_ok (p : Z) (m : mode) (s1 e1 s2 e2 : Z) (sg : sign) (res : Z * Z) : Prop :=
+  exists a, res = approx_val a /\ rounded_sum p m (exact_sum s1 e1 s2 e2 sg) (Z.min e1 e2) a.
+
+Lemma zero_left_ok p m e1 s2 e2 sg : form_ok p m 0 e1 s2 e2 sg (sgnz sg * s2, e2).
+Proof.
+  exists (AExact (sgnz sg * s2) e2). split; [reflexivity|]. unfold exact_sum. cbn [rounded_sum].
+  left. split; [lia|]. ring.
+Qed.
+
+Lemma zero_right_ok p m s1 e1 s2 e2 sg : sgnz sg * s2 = 0 -> form_ok p m s1 e1 s2 e2 sg (s1, e1).
+Proof.
+  intros Hz. exists (AExact s1 e1). split; [reflexivity|]. unfold exact_sum. cbn [rounded_sum].
+  left. split; [lia|]. rewrite Hz. ring.
+Qed.
+
+Theorem fbig_add_forms_correct p1 p2 m s1 e1 s2 e2 sg :
+  let p := ctx_max p1 p2 in
+  1 <= p -> dlen B s1 <= p -> dlen B s2 <= p ->
+  form_ok p m s1 e1 s2 e2 sg (add_val_val B digits_ub p1 p2 m s1 e1 s2 e2 sg) /\
+  form_ok p m s1 e1 s2 e2 sg (add_val_ref B digits_ub p1 p2 m s1 e1 s2 e2 sg) /\
+  form_ok p m s1 e1 s2 e2 sg (add_ref_val B digits_ub p1 p2 m s1 e1 s2 e2 sg) /\
+  form_ok p m s1 e1 s2 e2 sg (add_ref_ref B digits_ub p1 p2 m s1 e1 s2 e2 sg).
+Proof.
+  intros p Hp Hd1 Hd2.
+  assert (Hd2' : dlen B (sgnz sg * s2) <= p) by (rewrite dlen_sgnz; exact Hd2).
+  assert (Hs2 : s2 = 0 -> sgnz sg * s2 = 0) by (intros ->; ring).
+  assert (Hs2' : sgnz sg * s2 = 0 -> s2 = 0) by (destruct sg; cbn [sgnz]; lia).
+  unfold add_val_val, add_val_ref, add_ref_val, add_ref_ref. fold p. cbv zeta.
+  repeat split.
+  - destruct (Z.eqb_spec s1 0) as [->|Hn1]; [apply zero_left_ok|].
+    destruct (Z.eqb_spec (sgnz sg * s2) 0) as [Hz|Hn2]; [apply zero_right_ok; exact Hz|].
+    eexists. split; [reflexivity|]. rewrite <- exact_sum_sign.
+    apply add_dispatch_correct; assumption.
+  - destruct (Z.eqb_spec s1 0) as [->|Hn1]; [apply zero_left_ok|].
+    destruct (Z.eqb_spec s2 0) as [Hz|Hn2]; [apply zero_right_ok; auto|].
+    eexists. split; [reflexivity|]. apply add_dispatch_correct; assumption.
+  - destruct (Z.eqb_spec s1 0) as [->|Hn1]; [apply zero_left_ok|].
+    destruct (Z.eqb_spec (sgnz sg * s2) 0) as [Hz|Hn2]; [apply zero_right_ok; exact Hz|].
+    eexists. split; [reflexivity|]. rewrite <- exact_sum_sign. unfold exact_sum. cbn [sgnz].
+    destruct (Z.compare_spec e1 e2) as [Heq|Hlt|Hgt].
+    + subst e2. rewrite Z.min_id, Z.sub_diag, Z.pow_0_r, !Z.mul_1_r, Z.mul_1_l.
+      apply equal_exp_rounded. exact Hp.
+    + replace (Z.min e1 e2) with e1 by lia. rewrite Z.sub_diag, Z.pow_0_r, Z.mul_1_r, Z.mul_1_l.
+      rewrite Z.add_comm.
+      pose proof (repr_add_large_small_correct p m (sgnz sg * s2) e2 s1 e1 Positive Hp Hn2 Hn1 Hlt Hd2' Hd1) as H.
+      cbn [sgnz] in H. rewrite Z.mul_1_l in H. exact H.
+    + replace (Z.min e1 e2) with e2 by lia. rewrite Z.sub_diag, Z.pow_0_r, Z.mul_1_r, Z.mul_1_l.
+      pose proof (repr_add_small_large_correct p m (sgnz sg * s2) e2 s1 e1 Positive Hp Hn2 Hn1 Hgt Hd2' Hd1) as H.
+      cbn [sgnz] in H. rewrite Z.mul_1_l in H. exact H.
+  - destruct (Z.eqb_spec s1 0) as [->|Hn1]; [apply zero_left_ok|].
+    destruct (Z.eqb_spec s2 0) as [Hz|Hn2]; [apply zero_right_ok; auto|].
+    eexists. split; [reflexivity|]. apply add_dispatch_correct; assumption.
+Qed.
+
+(** unlimited precision (p = 0): the sum is exact *)
+Theorem ctx_add_sub_unlimited m s1 e1 s2 e2 sg :
+  let res := match sg with Positive => ctx_add B digits_ub 0 m s1 e1 s2 e2
+                         | Negative => ctx_sub B digits_ub 0 m s1 e1 s2 e2 end in
+  exists r e, res = AExact r e /\
+    ((0 <= e - Z.min e1 e2 /\ r * B ^ (e - Z.min e1 e2) = exact_sum s1 e1 s2 e2 sg) \/
+     (r = 0 /\ exact_sum s1 e1 s2 e2 sg = 0)).
+Proof.
+  cbv zeta. unfold exact_sum.
+  assert (Hd : forall sg', exists r e, add_dispatch B digits_ub 0 m s1 e1 s2 e2 sg' = AExact r e /\
+    ((0 <= e - Z.min e1 e2 /\ r * B ^ (e - Z.min e1 e2) = s1 * B ^ (e1 - Z.min e1 e2) + sgnz sg' * s2 * B ^ (e2 - Z.min e1 e2)) \/
+     (r = 0 /\ s1 * B ^ (e1 - Z.min e1 e2) + sgnz sg' * s2 * B ^ (e2 - Z.min e1 e2) = 0))).
+  { intros sg'. unfold add_dispatch.
+    destruct (Z.compare_spec e1 e2) as [Heq|Hlt|Hgt].
+    - subst e2. rewrite Z.min_id, Z.sub_diag, Z.pow_0_r, !Z.mul_1_r.
+      pose proof (normalize_spec B B_ge_2 (s1 + sgnz sg' * s2) e1) as N.
+      destruct (normalize B (s1 + sgnz sg' * s2) e1) as [s' e']. destruct N as [N0 N1].
+      rewrite repr_round_unlimited. exists s', e'. split; [reflexivity|].
+      destruct (Z.eq_dec (s1 + sgnz sg' * s2) 0) as [Hz|Hnz].
+      + right. destruct (N0 Hz) as [-> _]. split; [reflexivity | exact Hz].
+      + left. destruct (N1 Hnz) as (_ & _ & j & Hj & Ee & Es). replace (e' - e1) with j by lia.
+        split; [lia | lia].
+    - unfold repr_add_small_large. cbn [Z.eqb negb andb]. rewrite rrs_unfold. cbn [Z.eqb].
+      eexists _, _. split; [reflexivity|]. left.
+      replace (Z.min e1 e2) with e1 by lia. rewrite !Z.sub_diag, Z.pow_0_r. unfold shl_digits.
+      split; [lia | ring].
+    - unfold repr_add_large_small. cbn [Z.eqb negb andb]. rewrite rrs_unfold. cbn [Z.eqb].
+      eexists _, _. split; [reflexivity|]. left.
+      replace (Z.min e1 e2) with e2 by lia. rewrite !Z.sub_diag, Z.pow_0_r. unfold shl_digits.
+      split; [lia | ring]. }
+  destruct sg; [unfold ctx_add | unfold ctx_sub].
+  - destruct (Z.eqb_spec s1 0) as [->|Hn1]; [|destruct (Z.eqb_spec s2 0) as [->|Hn2]].
+    + rewrite repr_round_unlimited. exists s2, e2. split; [reflexivity|]. left. cbn [sgnz]. split; [lia | ring].
+    + rewrite repr_round_unlimited. exists s1, e1. split; [reflexivity|]. left. cbn [sgnz]. split; [lia | ring].
+    + apply Hd.
+  - destruct (Z.eqb_spec s1 0) as [->|Hn1]; [|destruct (Z.eqb_spec s2 0) as [->|Hn2]].
+    + rewrite repr_round_unlimited. cbn [approx_neg]. exists (- s2), e2. split; [reflexivity|]. left. cbn [sgnz]. split; [lia | ring].
+    + rewrite repr_round_unlimited. exists s1, e1. split; [reflexivity|]. left. cbn [sgnz]. split; [lia | ring].
+    + apply Hd.
+Qed.
+
+(* ------------------------------------------------------------------------------------------- *)
+(** * 8. [rounded_sum] is the documented contract *)
+
+(** S = t * B^j with |t| < B^p: S is representable with p digits *)
+Definition representable (p S : Z) : Prop := exists t j, 0 <= j /\ S = t * B ^ j /\ Z.abs t < B ^ p.
+
+Theorem rounded_sum_contract p m S e0 a : 1 <= p -> rounded_sum p m S e0 a ->
+  match a with
+  | AExact r e => r = 0 /\ S = 0 \/ 0 <= e - e0 /\ r * B ^ (e - e0) = S
+  | AInexact r e f =>
+      let U := B ^ (e - e0) in                          (* one unit of the last kept digit *)
+      0 <= e - e0 /\
+      r * U <> S /\                                     (* flagged Inexact only when inexact *)
+      Z.abs (r * U - S) < U /\                          (* error below one unit ... *)
+      U * B ^ (p - 1) <= Z.abs S /\                     (* ... and that unit is at most one ulp at precision p *)
+      (is_half_mode m = true -> 2 * Z.abs (r * U - S) <= U) /\
+      side_ok m S U r /\                                (* directed modes land on the prescribed side *)
+      (f = AddOne -> S < r * U) /\ (f = SubOne -> r * U < S) /\
+      Z.abs r <= B ^ (p + 1) /\                         (* at most p+1 digits (or the power itself) *)
+      ~ representable p S                               (* a representable sum is never flagged Inexact *)
+  end.
+Proof.
+  intros Hp H. destruct a as [r e|r e f]; cbn [rounded_sum] in H.
+  - tauto.
+  - cbv zeta in *. destruct H as (Hk & Hm & Hr & Hf1 & Hf2 & HwL & HwU).
+    set (k := e - e0) in *. pose proof (Bpos k Hk) as HU. set (U := B ^ k) in *.
+    pose proof (spec_round_error m S U HU) as [E1 E2]. cbv zeta in E1, E2. rewrite <- Hr in E1, E2.
+    pose proof (spec_round_side m S U HU) as Hside. rewrite <- Hr in Hside.
+    rewrite pow_split in HwL by (try exact B_ge_2; lia).
+    replace (p + 1 + k) with ((p + 1) + k) in HwU by lia. rewrite pow_split in HwU by (try exact B_ge_2; lia).
+    fold U in HwL, HwU. pose proof (Bpos (p - 1) ltac:(lia)) as HP1. pose proof (Bpos (p + 1) ltac:(lia)) as HP2.
+    split; [exact Hk|]. split.
+    { intros Heq. apply Hm. rewrite <- Heq. apply Z.mod_mul. lia. }
+    split; [exact E1|]. split; [lia|]. split; [exact E2|]. split; [exact Hside|].
+    split; [exact Hf1|]. split; [exact Hf2|]. split.
+    { destruct (Z.le_gt_cases (Z.abs r) (B ^ (p + 1))) as [Hle|Hgt]; [exact Hle|]. exfalso.
+      assert ((B ^ (p + 1) + 1) * U <= Z.abs r * U) by nia.
+      assert (Z.abs (r * U) = Z.abs r * U) by (rewrite Z.abs_mul, (Z.abs_eq U); lia). lia. }
+    intros (t & j & Hj & Et & Ht).
+    destruct (Z.le_gt_cases k j) as [Hkj|Hjk].
+    + apply Hm. rewrite Et. replace j with ((j - k) + k) by lia. rewrite pow_split by (try exact B_ge_2; lia).
+      fold U. rewrite Z.mul_assoc. apply Z.mod_mul. lia.
+    + (* |S| < B^(p+j) <= B^(p+k-1) <= |S| *)
+      assert (HS : Z.abs S = Z.abs t * B ^ j).
+      { rewrite Et, Z.abs_mul, (Z.abs_eq (B ^ j)); [reflexivity|]. pose proof (Bpos j Hj). lia. }
+      pose proof (Bpos j Hj) as HPj.
+      assert (Z.abs S < B ^ p * B ^ j) by (rewrite HS; nia).
+      assert (B ^ p * B ^ j <= B ^ (p - 1) * U).
+      { unfold U. rewrite <- !pow_split by (try exact B_ge_2; lia). apply pow_le_mono; [exact B_ge_2 | lia]. }
+      lia.
 Qed.
 End AddProofs.
